@@ -331,7 +331,7 @@ def run(ck):
     for lo in range(0, len(payloads), 32):
         for r in core.pmap("vf.props.c17:work_filter", payloads[lo:lo + 32], nproc=32, timeout=3000):
             ck.merge(r)
-    nscripts = 36 if quick else 600
+    nscripts = 72 if quick else 600
     specs = [{"name": f"s{ck.seed}_{i}", "seed": f"C17:{ck.seed}:{i}", "mode": ["default", "allow", "custom"][i % 3]} for i in range(nscripts)]
     m = min(n, nscripts)
     for r in core.pmap("vf.props.c17:work_e2e", [{"scripts": specs[i::m]} for i in range(m)], timeout=3000):
